@@ -101,6 +101,7 @@ type Step struct {
 	Ctx    []CtxFn `json:"ctx,omitempty"`
 	Aggs   []Agg   `json:"aggs,omitempty"`
 	Other  int     `json:"other,omitempty"`
+	Subs   []Step  `json:"subs,omitempty"` // Concurrent: operations started together on separate goroutines
 	Fl     string  `json:"fl,omitempty"` // a float (scenario notation) for FloatFmt
 	Rid    BS      `json:"rid,omitempty"` // name of a row-number column the specification may use to identify rows
 	Opts   []int   `json:"opts,omitempty"`
